@@ -40,6 +40,16 @@ var rcExtraTracked = map[string]bool{
 	"sseutil.Writer": true,
 }
 
+// Registry entries: the descriptors users register and the records the managers keep them in.  They carry no lock of
+// their own — what guards them is the lock of the manager whose map / slice they were read from, so their access
+// records list EVERY mutex lexically held at that point, named by the type that owns it ("toolManager.mu"; an RLock is
+// shared, after the RUnlock nothing is held).  A value copy of an entry (`*toolPtr`, an entry handed to a function of
+// another package) reads all of its fields, `*entry = …` writes them all.
+var rcEntryTypes = map[string]bool{
+	"Tool": true, "Prompt": true, "Resource": true, "ResourceTemplate": true,
+	"registeredTool": true, "registeredPrompt": true, "registeredResource": true, "registerResourceTemplate": true,
+}
+
 // Exported configuration setters that are documented / meant to be called before the object is shared
 // (assumption listed in checklib/props.d/C20.json).
 var rcConfigAPI = map[string]bool{
@@ -150,7 +160,7 @@ func rcLoadFresh(src *pkgSrc, prefix, rel string) *rcPkg {
 						continue
 					}
 					name := prefix + ts.Name.Name
-					if p.rcDeclareFields(name, "", st, 1) || rcExtraTracked[name] {
+					if p.rcDeclareFields(name, "", st, 1) || rcExtraTracked[name] || rcEntryTypes[name] {
 						p.tracked[name] = true
 					}
 				}
@@ -317,24 +327,37 @@ type rcWalker struct {
 	onIdent     func(id *ast.Ident, st rcState)
 	globalLocks bool
 	globalKeys  map[string]bool
+	// family "GoClosures" (races_goclosures.go) only: every `X.Lock()` / `X.RLock()` … counts, whatever X is (a mutex
+	// declared in the enclosing function guards its locals)
+	anyLocks bool
+	// lock expression text -> "<owner type>.<field path>" (for the records of registry entries)
+	lockNames map[string]string
 }
 
 func (w *rcWalker) curUnit() ast.Node { return w.unit[len(w.unit)-1] }
 
 func (w *rcWalker) record(x *ast.SelectorExpr, fd *rcFieldDecl, owner ast.Expr, st rcState, kind, sync string) {
+	w.recordAt(x.Sel.Pos(), x.Pos(), fd, owner, st, kind, sync)
+}
+
+func (w *rcWalker) recordAt(linePos, pos token.Pos, fd *rcFieldDecl, owner ast.Expr, st rcState, kind, sync string) {
 	if !w.p.tracked[fd.owner] || fd.kind == "lock" || fd.kind == "anon" {
 		return
 	}
 	ownerText := w.p.src.text(owner)
 	var held []rcHeld
 	for k, excl := range st {
-		if strings.HasPrefix(k, ownerText+".") {
+		if rcEntryTypes[fd.owner] {
+			if n := w.lockNames[k]; n != "" {
+				held = append(held, rcHeld{Name: n, Excl: excl})
+			}
+		} else if strings.HasPrefix(k, ownerText+".") {
 			held = append(held, rcHeld{Name: k[len(ownerText)+1:], Excl: excl})
 		}
 	}
 	sort.Slice(held, func(i, j int) bool { return held[i].Name < held[j].Name })
 	s := rcSite{Type: fd.owner, Field: fd.path, Fn: w.fn, Kind: kind, Sync: sync, Held: held, File: w.file,
-		Line: w.p.src.fset.Position(x.Sel.Pos()).Line, pos: x.Pos(), unit: w.curUnit(), rooted: owner}
+		Line: w.p.src.fset.Position(linePos).Line, pos: pos, unit: w.curUnit(), rooted: owner}
 	if id := rcRootIdent(owner); id != nil {
 		s.root = w.p.info.Uses[id]
 		if s.root == nil {
@@ -379,6 +402,9 @@ func (w *rcWalker) lockCall(e ast.Expr) (key, op string, ok bool) {
 		return
 	}
 	x, fd, _ := w.field(outer.X)
+	if w.anyLocks && (fd == nil || fd.kind == "lock") {
+		return w.p.src.text(outer.X), outer.Sel.Name, true
+	}
 	if w.globalLocks {
 		if id := rcRootIdent(outer.X); id != nil && (fd == nil || fd.kind == "lock") {
 			if v, isVar := w.p.info.Uses[id].(*types.Var); isVar && v.Parent() != nil && v.Parent().Parent() == types.Universe {
@@ -391,7 +417,45 @@ func (w *rcWalker) lockCall(e ast.Expr) (key, op string, ok bool) {
 	if fd == nil || fd.kind != "lock" {
 		return
 	}
+	if w.lockNames == nil {
+		w.lockNames = map[string]string{}
+	}
+	w.lockNames[w.p.src.text(x)] = fd.owner + "." + fd.path
 	return w.p.src.text(x), outer.Sel.Name, true
+}
+
+// entryOf: the registry-entry type an expression's value has (E or *E), if any.
+func (w *rcWalker) entryOf(e ast.Expr) string {
+	tv, ok := w.p.info.Types[e]
+	if !ok || tv.Type == nil || tv.IsType() {
+		return ""
+	}
+	t := tv.Type
+	if p, ok := t.(*types.Pointer); ok {
+		t = p.Elem()
+	}
+	if n, ok := t.(*types.Named); ok && n.Obj() != nil && n.Obj().Pkg() != nil {
+		if name := w.p.prefix + n.Obj().Name(); rcEntryTypes[name] {
+			if _, isStruct := n.Underlying().(*types.Struct); isStruct {
+				return name
+			}
+		}
+	}
+	return ""
+}
+
+// wholeEntry records an access to every field of the entry `ptr` points to (value copy / whole assignment).
+func (w *rcWalker) wholeEntry(at ast.Expr, ptr ast.Expr, owner string, st rcState, kind string) {
+	var fds []*rcFieldDecl
+	for _, fd := range w.p.fields {
+		if fd.owner == owner && fd.depth == 1 {
+			fds = append(fds, fd)
+		}
+	}
+	sort.Slice(fds, func(i, j int) bool { return fds[i].path < fds[j].path })
+	for _, fd := range fds {
+		w.recordAt(at.Pos(), at.Pos(), fd, ptr, st, kind, "plain")
+	}
 }
 
 var rcAtomicReads = map[string]bool{"Load": true}
@@ -458,6 +522,15 @@ func (w *rcWalker) expr(e ast.Expr, st rcState, mode string) {
 	case *ast.ParenExpr:
 		w.expr(x.X, st, mode)
 	case *ast.StarExpr:
+		if owner := w.entryOf(x.X); owner != "" {
+			kind := "r"
+			if mode == "w" {
+				kind = "w"
+			}
+			if mode != "addr" {
+				w.wholeEntry(x, x.X, owner, st, kind)
+			}
+		}
 		w.expr(x.X, st, "r")
 	case *ast.UnaryExpr:
 		if x.Op == token.AND {
@@ -584,6 +657,21 @@ func (w *rcWalker) call(x *ast.CallExpr, st rcState) {
 			w.expr(owner, st, "r")
 			w.exprs(x.Args, st, "r")
 			return
+		}
+	}
+	if sel, ok := x.Fun.(*ast.SelectorExpr); ok {
+		if id, ok := sel.X.(*ast.Ident); ok {
+			if _, isPkg := w.p.info.Uses[id].(*types.PkgName); isPkg {
+				// an entry handed to another package (json.Marshal(tool) …) is read as a whole
+				for _, arg := range x.Args {
+					if _, isStar := arg.(*ast.StarExpr); isStar {
+						continue
+					}
+					if owner := w.entryOf(arg); owner != "" {
+						w.wholeEntry(arg, arg, owner, st, "r")
+					}
+				}
+			}
 		}
 	}
 	w.expr(x.Fun, st, "r")
